@@ -909,6 +909,148 @@ func verifC03BigUniq(rnd *rand.Rand, target int) verifC03Run {
 	return run
 }
 
+// ---- unique sketches across the resize thresholds of ChUnique's table ---------------------------------
+//
+// ChUnique is an open-addressing table of 2^degree slots (home slot = (hash >> 15) & mask, linear
+// probing, grown when more than half full, pre-sized by MergeRead for a large contribution).  The
+// directed family builds, from values whose hashes are chosen for their home slots, the situation a
+// resize has to repair: y sits in the last slot of the table, x has the same home slot and wrapped
+// around to slot 0; the table then grows so that y moves to the upper half while x's home stays in the
+// lower half; finally x is contributed to the same row once more.  If the resize left x out of reach
+// of its home slot it is stored twice.  The oracle is the specification's (set union, every hash once,
+// exact count).
+
+var verifC03Pool map[int][]int // (hash >> 15) & 255 -> abstract hash ids
+
+func verifC03HomePool() map[int][]int {
+	if verifC03Pool == nil {
+		verifC03Pool = map[int][]int{}
+		for id := 1; id <= 12000 && verifC03MarshalBroken == ""; id++ {
+			h := verifC03Hash32(verifC03UniqValue(id))
+			verifC03Pool[int(h>>15)&255] = append(verifC03Pool[int(h>>15)&255], id)
+		}
+	}
+	return verifC03Pool
+}
+
+// an unused id whose home slot in a table of 2^bits slots is `home`
+func verifC03PickHome(rnd *rand.Rand, used map[int]bool, bits int, home int) int {
+	pool := verifC03HomePool()
+	var classes []int
+	for c := 0; c < 256; c++ {
+		if c&(1<<bits-1) == home {
+			classes = append(classes, c)
+		}
+	}
+	for try := 0; try < 1000; try++ {
+		ids := pool[classes[rnd.Intn(len(classes))]]
+		if len(ids) == 0 {
+			continue
+		}
+		if id := ids[rnd.Intn(len(ids))]; !used[id] {
+			used[id] = true
+			return id
+		}
+	}
+	return 0
+}
+
+func verifC03UniqPart(top int, ids []int) verifC03Part {
+	return verifC03Part{Top: top, Cnt: len(ids), Uniq: ids}
+}
+
+// d: degree of the table in which x wraps (16, 32, 64 slots); variant 0: the table doubles while
+// single values arrive; 1: MergeRead pre-sizes it by two degrees for one large contribution; 2: the
+// whole story happens inside one agent's sketch (Insert path) and reaches the aggregator marshalled
+func verifC03Wrapped(rnd *rand.Rand, d int, variant int) verifC03Run {
+	run := verifC03Run{bts: []uint32{verifC03T0}}
+	used := map[int]bool{}
+	grow := d + 1
+	if variant == 1 {
+		grow = d + 2
+	}
+	last := 1<<d - 1
+	x := verifC03PickHome(rnd, used, grow, last)                                // home stays in the lower half
+	y := verifC03PickHome(rnd, used, grow, last+(1+rnd.Intn(1<<(grow-d)-1))<<d) // same home now, moves up
+	filler := func(n int, bits int) []int {                                     // n values with distinct home slots away from both ends of the table
+		var ids []int
+		homes := rnd.Perm(1<<bits - 4)
+		for i := 0; len(ids) < n && i < len(homes); i++ {
+			h := homes[i] + 2
+			if bits > d && (h&last == last || h&last <= 1) {
+				continue
+			}
+			if id := verifC03PickHome(rnd, used, bits, h); id != 0 {
+				ids = append(ids, id)
+			}
+		}
+		return ids
+	}
+	top := rnd.Intn(3)
+	item := func(agent int, ids ...int) {
+		run.items = append(run.items, verifC03Item{A: "Merge", Agent: agent, B: 1, M: 1, Tag: 4 + d%4, Parts: []verifC03Part{verifC03UniqPart(top, ids)}})
+	}
+	all := filler(1<<(d-1)-1, d) // with x and y: one more than half of the slots, so the table doubles at the last one
+	nFirst := 1 << (d - 2)       // UmMarshall sizes the table for that many items at degree d (16 slots at least)
+	switch variant {
+	case 0:
+		item(1, all[:nFirst]...)
+		item(2, y)
+		item(1, x)
+		for rest := all[nFirst:]; len(rest) > 0; {
+			k := 1 + rnd.Intn(len(rest))
+			item(1+rnd.Intn(3), rest[:k]...)
+			rest = rest[k:]
+		}
+		item(3, x)
+	case 1:
+		item(1, all[:nFirst]...)
+		item(2, y)
+		item(1, x)
+		item(3, filler(1<<d+1+rnd.Intn(4), grow)...) // more values than slots: MergeRead resizes to degree d+2 at once
+		item(2, x, y)
+	case 2:
+		var ids []int
+		if d > 4 {
+			ids = append(ids, all[:nFirst+1]...) // the agent's table grows by doubling: reach degree d first
+			all = all[nFirst+1:]
+		}
+		ids = append(ids, y, x)
+		ids = append(ids, all...)
+		ids = append(ids, x) // the same value seen again in the same second
+		item(1, ids...)
+		item(2, x)
+	}
+	return run
+}
+
+// many rows with overlapping unique sets of 1..40 hashes contributed in several rounds by several agents
+func verifC03Overlap(rnd *rand.Rand, rows int) verifC03Run {
+	run := verifC03Run{bts: []uint32{verifC03T0}}
+	for r := 0; r < rows; r++ {
+		m, tag, top := 1+r%2, (r/2)%8, (r/16)%6
+		universe := make([]int, 1+rnd.Intn(40))
+		for i := range universe {
+			universe[i] = 1 + rnd.Intn(12000)
+		}
+		for round := 2 + rnd.Intn(5); round > 0; round-- {
+			var ids []int
+			for _, id := range universe {
+				if rnd.Intn(3) != 0 {
+					ids = append(ids, id)
+				}
+			}
+			if len(ids) == 0 {
+				ids = universe[:1]
+			}
+			rnd.Shuffle(len(ids), func(i, j int) { ids[i], ids[j] = ids[j], ids[i] })
+			run.items = append(run.items, verifC03Item{A: "Merge", Agent: 1 + rnd.Intn(4), B: 1, M: m, Tag: tag, Parts: []verifC03Part{verifC03UniqPart(top, ids)}})
+		}
+	}
+	rnd.Shuffle(len(run.items), func(i, j int) { run.items[i], run.items[j] = run.items[j], run.items[i] })
+	return run
+}
+
 func TestVerifC03(t *testing.T) {
 	verifkit.Gate(t)
 	res := verifkit.NewResult()
@@ -941,6 +1083,16 @@ func TestVerifC03(t *testing.T) {
 	rnd := rand.New(uint64(verifkit.Seed())*31 + 5)
 	for i := 0; i < verifkit.EnvInt("VERIF_NRANDOM", 300); i++ {
 		runs = append(runs, verifC03Random(rnd))
+	}
+	for rep := 0; rep < verifkit.EnvInt("VERIF_NWRAPPED", 4); rep++ {
+		for d := 4; d <= 6; d++ {
+			for variant := 0; variant < 3; variant++ {
+				runs = append(runs, verifC03Wrapped(rnd, d, variant))
+			}
+		}
+	}
+	for i := 0; i < verifkit.EnvInt("VERIF_NOVERLAP", 6); i++ {
+		runs = append(runs, verifC03Overlap(rnd, 80))
 	}
 	bigs := os.Getenv("VERIF_BIGUNIQ")
 	if bigs == "" {
